@@ -31,7 +31,10 @@ type C07 struct {
 	askBinds int
 }
 
-type sdkCoin struct{ denom, amount string }
+type sdkCoin struct {
+	denom, amount string
+	disableAutoRetire bool
+}
 
 func NewC07(k *KnownSet) *C07 {
 	return &C07{Base: Base{"C07"}, Known: k, nontrivial: strset{}, breakdown: counter{}}
@@ -71,13 +74,17 @@ func (m *C07) trackAsks(e *eng.Engine, t *eng.TxRec) {
 			}
 			for j, o := range x.Orders {
 				if o.AskPrice != nil {
-					m.asked[r.SellOrderIds[j]] = sdkCoin{o.AskPrice.Denom, o.AskPrice.Amount.String()}
+					m.asked[r.SellOrderIds[j]] = sdkCoin{o.AskPrice.Denom, o.AskPrice.Amount.String(), o.DisableAutoRetire}
 				}
 			}
 		case *markettypes.MsgUpdateSellOrders:
 			for _, u := range x.Updates {
-				if u.NewAskPrice != nil {
-					m.asked[u.SellOrderId] = sdkCoin{u.NewAskPrice.Denom, u.NewAskPrice.Amount.String()}
+				if a, known := m.asked[u.SellOrderId]; known {
+					a.disableAutoRetire = u.DisableAutoRetire // no field presence: every update sets it
+					if u.NewAskPrice != nil {
+						a.denom, a.amount = u.NewAskPrice.Denom, u.NewAskPrice.Amount.String()
+					}
+					m.asked[u.SellOrderId] = a
 				}
 			}
 		}
@@ -97,6 +104,9 @@ func (m *C07) trackAsks(e *eng.Engine, t *eng.TxRec) {
 			}
 			e.Violate(m.P, "order-ask-binding", fmt.Sprintf("tx step %d (%s): sell order %d was listed by its seller at %s %s but is stored at %s (market %d)", t.Step, t.Tag, id, a.amount, a.denom, got, o.MarketId))
 			delete(m.asked, id) // report once
+		} else if o.DisableAutoRetire != a.disableAutoRetire {
+			e.Violate(m.P, "order-auto-retire-binding", fmt.Sprintf("tx step %d (%s): sell order %d was listed by its seller with disable_auto_retire=%v but is stored with %v", t.Step, t.Tag, id, a.disableAutoRetire, o.DisableAutoRetire))
+			delete(m.asked, id)
 		}
 	}
 }
